@@ -167,7 +167,14 @@ M_PRELUDE = [
     "class N2(NamedTuple):\n    p: Optional[int] = None\n    q: Any = 7",
     "N3 = collections.namedtuple('N3', [])",
     "N4 = collections.namedtuple('N4', ['u', 'v'], defaults=[1])",
+    "WInt = NewType('WInt', int)",
+    "WLst = NewType('WLst', List[int])",
+    "WAny = NewType('WAny', Any)",
+    "WOpt = NewType('WOpt', Optional[str])",
+    "WW = NewType('WW', WInt)",
 ]
+M_WRAPPED = [("WInt", "TWrap TInt", True), ("WLst", "TWrap (TList TInt)", False), ("WAny", "TWrap TAny", False),
+             ("WOpt", "TWrap (TUnion [TStr; TNone])", False), ("WW", "TWrap (TWrap TInt)", True)]
 M_NAMED = {
     "N0": ('[]', '[]', '[]'),
     "N1": ('["a"; "b"]', '[TInt; TStr]', '[None; Some (JStr "x")]'),
@@ -187,6 +194,9 @@ def m_type(r, depth, avail, allow_any=True, asd=False) -> MT:
     x = r.random()
     if x < 0.12:
         return m_named(r, asd)
+    if x < 0.2:
+        py, coq, hashable = r.choice(M_WRAPPED)
+        return MT(py, coq, None, hashable)
     if depth <= 0 or x < 0.3:
         if avail and r.random() < 0.45:
             c = r.choice(avail)
@@ -259,6 +269,8 @@ def m_family(r):
             else:
                 t = m_type(r, r.choice([0, 1, 1, 2]), avail, asd=ntd)
             refs[nm].update(t.classes)
+            if r.random() < 0.15:
+                t = MT(f"Final[{t.py}]", f"TWrap ({t.coq})", t.default, False, t.classes)
             alias = None
             if r.random() < 0.25:
                 alias = r.choice(["$ref", "$defs", "al" + str(j), "it's", "\u00e9" + str(j), "default"])
@@ -386,10 +398,10 @@ def m_cases(ctx: vlib.Ctx, n: int):
             exp_rec = True
             exp_docs, exp_defs = [], []
         except Exception as e:
-            # anything else is outside the model (and is what the oracle looks for); record and skip
-            ctx.hist("corr_skipped", type(e).__name__)
-            sys.modules.pop(mod.__name__, None)
-            continue
+            # the model is total on these tables (C20_total) and diverges only on cyclic ones: any other exception of the
+            # implementation is a disagreement (expected text that no model output can equal)
+            ctx.hist("corr_impl_exception", type(e).__name__)
+            exp_docs, exp_defs = [f"EXC {type(e).__name__}: {str(e)[:80]}".encode()], []
         sys.modules.pop(mod.__name__, None)
         ctx.hist("corr_shape", ("builder" if builder else "single") + ("/rec" if exp_rec else "") + (f"/all_refs={ar}"))
         pctx_term = "KNone" if pctx is None else f"(mk_ctx {pctx[0]} {kv_opt_bool(pctx[1])} {kv_opt_str(pctx[2])})"
